@@ -51,7 +51,7 @@ LEAN_KEYWORDS = {'open', 'end', 'at', 'from', 'fun', 'let', 'have', 'show', 'in'
 LEAN_TYPE = {'img': 'I', 'se': 'S', 'nat': 'Nat', 'int': 'Int', 'bool': 'Bool', 'K': 'K', 'vec': 'List K', 'mode': 'M',
              'arr': 'A', 'natlist': 'List Nat', 'intlist': 'List Int', 'fld': 'X → K', 'bfld': 'X → Bool',
              'hist': 'H', 'pimg': 'G', 'str': 'String', 'mat': 'List (List K)', 'bimg': 'B',
-             'optK': 'Option K', 'dtype': 'D', 'shp': 'Sh'}
+             'optK': 'Option K', 'optD': 'Option D', 'dtype': 'D', 'shp': 'Sh'}
 
 # guard helpers whose calls (as expression statements) are dropped: translator/guards.py extracts them
 GUARD_CALLS = {'_verify_is_integer_type', '_verify_is_floatingpoint_type', '_verify_is_bool', '_verify_is_nonnegative',
@@ -158,6 +158,10 @@ class Tr:
     def coerce(self, txt, sort, want, node):
         if want is None or sort == want:
             return txt
+        if sort == 'none' and want in ('optK', 'optD'):
+            return '(none)'
+        if (sort, want) in (('K', 'optK'), ('dtype', 'optD')):
+            return f'(some {txt})'
         if sort == 'natlit':
             if want == 'nat' or want == 'int':
                 return txt
@@ -194,6 +198,8 @@ class Tr:
     def _E(self, node, env, want=None):
         if isinstance(node, ast.Constant):
             v = node.value
+            if v is None:
+                return 'none', 'none'                   # only where an optional sort is expected (see `coerce`)
             if isinstance(v, bool):
                 return ('true' if v else 'false'), 'bool'
             if isinstance(v, int):
@@ -300,6 +306,18 @@ class Tr:
                 if s in ('K', 'int', 'nat'):
                     return f'({a} * {a})', s
             raise self.err(node, 'power other than **2')
+        if op in (ast.BitOr, ast.BitAnd):
+            # `|` / `&` of Boolean masks (elementwise) or of two bools
+            a, sa = self._E(node.left, env)
+            b, sb = self._E(node.right, env)
+            sym = '||' if op is ast.BitOr else '&&'
+            if sa == 'bool' and sb == 'bool':
+                return f'({a} {sym} {b})', 'bool'
+            if {sa, sb} <= {'bool', 'bfld'}:
+                pa = f'({a} p)' if sa == 'bfld' else a
+                pb = f'({b} p)' if sb == 'bfld' else b
+                return f'(fun p => {pa} {sym} {pb})', 'bfld'
+            raise self.err(node, f'| or & on sorts {sa},{sb} (only Boolean masks)')
         if op in (ast.FloorDiv, ast.Mod):
             a, sa = self._E(node.left, env)
             b, sb = self._E(node.right, env)
@@ -624,6 +642,15 @@ class Tr:
                 ast.copy_location(val, s)
                 if not isinstance(tgt, ast.Name):
                     raise self.err(s, 'augmented assignment to a non-name')
+            if isinstance(tgt, ast.Subscript) and isinstance(tgt.value, ast.Name) and isinstance(tgt.slice, ast.Constant) \
+                    and tgt.slice.value is Ellipsis and 'setitem...' in self.fam.prims:
+                # `a[...] = v`: every element becomes v (converted to the dtype of a): a reviewed primitive
+                p = self.fam.prims['setitem...']
+                a, _ = self.E(tgt.value, env, p.args[0])
+                v, _ = self.E(val, env, p.args[1])
+                env2 = dict(env)
+                env2[tgt.value.id] = p.ret
+                return [pad + f'let {lname(tgt.value.id)} := P.{p.field} {a} {v}'] + self.S(rest, env2, k, ind)
             if isinstance(tgt, ast.Subscript) and isinstance(tgt.value, ast.Name) and 'setitem' in self.fam.prims:
                 p = self.fam.prims['setitem']
                 a, _ = self.E(tgt.value, env, p.args[0])
@@ -654,13 +681,24 @@ class Tr:
                         and not self.exits(s.body + s.orelse):
                     return self.S(rest, env, k, ind)
                 raise self.err(s, 'test of a destination-buffer name guarding value-level code')
+            # `if np.may_share_memory(a, out): a = a.copy()`: an aliasing guard around destination buffers - no value-level
+            # meaning, accepted only when everything it guards is a value-level no-op (`x = x.copy()`)
+            if isinstance(s.test, ast.Call) and dotted(s.test.func) == 'np.may_share_memory':
+                def noop(st):
+                    return (isinstance(st, ast.Assign) and len(st.targets) == 1 and isinstance(st.targets[0], ast.Name)
+                            and isinstance(st.value, ast.Call) and isinstance(st.value.func, ast.Attribute)
+                            and st.value.func.attr in IDENTITY_METHODS and not st.value.args and not st.value.keywords
+                            and isinstance(st.value.func.value, ast.Name) and st.value.func.value.id == st.targets[0].id)
+                if all(noop(st) for st in list(s.body) + list(s.orelse)):
+                    return self.S(rest, env, k, ind)
+                raise self.err(s, 'aliasing test guarding value-level code')
             # `if x is None:` on an optional parameter: a `match` that rebinds x as a scalar where it is not None
             nt = self._none_test(s.test, env)
             if nt is not None:
                 x, positive = nt
                 env_none, env_some = dict(env), dict(env)
                 env_none.pop(x)
-                env_some[x] = 'K'
+                env_some[x] = {'optK': 'K', 'optD': 'dtype'}[env[x]]
                 b_then, b_else = (env_none, env_some) if positive else (env_some, env_none)
                 h_none, h_some = f'| none =>', f'| some {lname(x)} =>'
                 heads = (f'(match {lname(x)} with', h_none if positive else h_some, h_some if positive else h_none, ')')
@@ -737,7 +775,7 @@ class Tr:
     def _none_test(self, test, env):
         """`x is None` / `x is not None` on an optional scalar -> (x, is_positive)"""
         if isinstance(test, ast.Compare) and len(test.ops) == 1 and isinstance(test.ops[0], (ast.Is, ast.IsNot)) \
-                and isinstance(test.left, ast.Name) and env.get(test.left.id) == 'optK' \
+                and isinstance(test.left, ast.Name) and env.get(test.left.id) in ('optK', 'optD') \
                 and isinstance(test.comparators[0], ast.Constant) and test.comparators[0].value is None:
             return test.left.id, isinstance(test.ops[0], ast.Is)
         return None
@@ -947,6 +985,7 @@ STRETCH = Family(
         'np.ptp': Prim('ptp', ['fld'], 'K'),
         '.shape:fld': Prim('shape', ['fld'], 'shp'),
         'np.zeros': Prim('zeros', ['shp', 'dtype'], 'fld'),
+        'setitem...': Prim('fill', ['fld', 'K'], 'fld', doc='`a[...] = v`: every element becomes v converted to the dtype of a'),
     }, extra_params=EMBED, prop='C20')
 
 COLORS = Family(
@@ -954,8 +993,10 @@ COLORS = Family(
     '[Add K] [Sub K] [Mul K] [Div K] [Neg K] [LT K] [DecidableLT K] [LE K] [DecidableLE K]', 'ColorPrims',
     {
         'np.power': Prim('pow', ['K', 'K'], 'K', elementwise=True),
-        '_convert': Prim('convert', ['fld', 'mat', 'dtype'], 'fld', kw={'dtype': 2},
-                         doc='`_convert(array, matrix, dtype, funcname)`: the 3x3 matrix applied along the channel axis'),
+        '_convert': Prim('convert', ['fld', 'mat', 'optD'], 'fld', kw={'dtype': 2},
+                         doc='`_convert(array, matrix, dtype, funcname)`: the 3x3 matrix applied along the channel axis, then '
+                             '`astype(dtype)` unless dtype is None'),
+        '.astype()': Prim('astype', ['fld', 'dtype'], 'fld', drop_kw={'copy'}),
     }, extra_params=EMBED, prop='C20')
 
 HISTO = Family(
@@ -1007,8 +1048,8 @@ TARGETS = [
     Target('morph.py', 'close_holes', [('ref', 'img'), ('Bc', 'se')], 'bimg', EXTREMA),
     Target('stretch.py', 'stretch', [('img', 'fld'), ('arg0', 'optK'), ('arg1', 'optK'), ('dtype', 'dtype')], 'fld', STRETCH),
     # positions X = (pixel, channel): the transfer functions act on every channel value, `_convert` mixes the channels of a pixel
-    Target('colors.py', 'rgb2xyz', [('rgb', 'fld'), ('dtype', 'dtype')], 'fld', COLORS),
-    Target('colors.py', 'xyz2rgb', [('xyz', 'fld'), ('dtype', 'dtype')], 'fld', COLORS),
+    Target('colors.py', 'rgb2xyz', [('rgb', 'fld'), ('dtype', 'optD')], 'fld', COLORS),
+    Target('colors.py', 'xyz2rgb', [('xyz', 'fld'), ('dtype', 'optD')], 'fld', COLORS),
 ]
 FAMILIES = [MORPH, CONV, THRESH, HISTO, LAPL, RC, SOFT, EXTREMA, STRETCH, COLORS]
 
